@@ -198,6 +198,13 @@ def r_touch(t, c, w):
     return sl.guarded(lambda: show_pairs(strax.touching_windows(t, c, window=w)))
 
 
+def r_splittouch(t, c, w):
+    def f():
+        res = strax.split_touching_windows(t, c, window=w)
+        return show_groups([[(0, 0, int(k)) for k in g["id"]] for g in res])
+    return sl.guarded(f)
+
+
 def r_touchcore(t, c, w):
     return sl.guarded(lambda: show_pairs(G._touching_windows(t["time"], strax.endtime(t), c["time"], strax.endtime(c), window=w)))
 
@@ -209,7 +216,7 @@ def r_prevnext(t, c):
     return sl.guarded(f)
 
 
-PAIR_FUNCS = {"fcin": r_fcin, "fcincore": r_fcincore, "split": r_split, "touch": r_touch, "touchcore": r_touchcore,
+PAIR_FUNCS = {"fcin": r_fcin, "fcincore": r_fcincore, "split": r_split, "touch": r_touch, "touchcore": r_touchcore, "splittouch": r_splittouch,
               "prevnext": r_prevnext}
 
 
@@ -290,6 +297,19 @@ def o_touch(t, c, w, out):
     return None
 
 
+def o_splittouch(t, c, w, out):
+    if not sanity_ok(t, c):
+        return None if out == "err ValueError" else f"unsorted / negative-length input not rejected with ValueError: {out}"
+    if out.startswith("err"):
+        return f"valid input rejected: {out}"
+    if not ends_sorted(t):
+        return None
+    exp = [[a[2] for a in t if touches(a, b, w)] for b in c]
+    if parse_groups(out[3:]) != exp:
+        return f"split_touching_windows != things touching each container within {w}: expected {exp}"
+    return None
+
+
 def o_touchcore(t, c, w, out):
     if not (rows_sorted(t) and ends_sorted(t) and rows_sorted(c)):
         return None
@@ -329,9 +349,9 @@ def o_prevnext(t, c, extra, out):
     return None
 
 
-PAIR_ORACLES = {"fcin": o_fcin, "fcincore": o_fcincore, "split": o_split, "touch": o_touch, "touchcore": o_touchcore,
+PAIR_ORACLES = {"fcin": o_fcin, "fcincore": o_fcincore, "split": o_split, "touch": o_touch, "touchcore": o_touchcore, "splittouch": o_splittouch,
                 "prevnext": o_prevnext}
-HAS_EXTRA = {"touch", "touchcore"}
+HAS_EXTRA = {"touch", "touchcore", "splittouch"}
 
 
 # ============================================================================================ pair cases (single)
@@ -630,8 +650,25 @@ def oracle_sort(case, out):
         return "result not sorted by (time, channel)"
     pos = {r[2]: i for i, r in enumerate(rows)}
     if any(key(res[i]) == key(res[i + 1]) and pos[res[i][2]] > pos[res[i + 1][2]] for i in range(len(res) - 1)):
-        return "rows with equal key changed their relative order (sort not stable)"
+        where = " [slow path: time span > (2^63-10)/(channels+1), np.sort(order=...)]" if sort_slow_path(case) else ""
+        return "rows with equal key changed their relative order (sort not stable)" + where
     return None
+
+
+def sort_slow_path(case):
+    """does sort_by_time leave its composite-key path? (exact integer form of the float guard; the generators stay away
+    from the narrow band where float64 rounding could decide differently)"""
+    rows = case["rows"]
+    if not rows:
+        return False
+    if case["ch"]:
+        chans = [r[1] for r in rows]
+        m = min(chans)
+        mx = max(c - m for c in chans) if m < 0 else max(chans)
+    else:
+        mx = 1
+    span = max(r[0] for r in rows) - min(r[0] for r in rows)
+    return span * (mx + 1) > 2**63 - 11
 
 
 def impl_splitraw(case):
@@ -695,6 +732,97 @@ def malform(rng, rows):
         i = rng.randrange(len(rows))
         rows[i][1] = rows[i][0] - rng.randint(1, 3)
     return [tuple(r) for r in rows]
+
+
+T0 = 1_700_000_000_000_000_137  # a nanosecond-epoch timestamp: float64 spacing there is 256 ns
+
+
+def shift_rows(rows, d=T0):
+    return [(r[0] + d, r[1] + d, r[2]) for r in rows]
+
+
+def epoch_components(ctx):
+    """Every function again with EVERY time moved to a real nanosecond-epoch value. The model is translation invariant
+    (theorem translation_invariant*), so any arithmetic in the real code that leaves exact int64 (float64 keeps only
+    multiples of 256 ns there) shows up as a disagreement and as an oracle failure with the shifted input."""
+    rng = ctx.rng
+    n = ctx.pick(500, 4000)
+    cases = []
+    for fn in ("fcin", "fcincore", "split", "prevnext", "touch", "touchcore", "splittouch"):
+        for _ in range(n):
+            both = rng.random() < 0.85
+            if fn in ("touch", "touchcore", "splittouch"):
+                t = rnd_things(rng, rng.randint(0, 6), 10, zero_p=rng.choice([0, 0.2]), ends_sorted_too=both)
+                c = rnd_things(rng, rng.randint(0, 4), 10, zero_p=rng.choice([0, 0.2]))
+            else:
+                c = rnd_valid_containers(rng, rng.randint(0, 4), zero_p=rng.choice([0, 0.2]))
+                t = rnd_things(rng, rng.randint(0, 6), (c[-1][1] if c else 6) + 3, zero_p=rng.choice([0, 0.2]))
+            if rng.random() < 0.1:
+                t = malform(rng, t)
+            case = dict(fn=fn, t=shift_rows(t), c=shift_rows(c), et=rng.choice(ENCS), ec=rng.choice(ENCS))
+            if fn in HAS_EXTRA:
+                case["w"] = rng.randint(-2, 3)
+            cases.append(case)
+    ctx.correspond("epoch/pairs", cases, impl_pair, op_pair, oracle_pair, nontrivial=lambda c, o: len(c["t"]) >= 1 and len(c["c"]) >= 1,
+                   rule=f"all times shifted by T0 = {T0}: fully_contained_in (+core), split_by_containment, abs_time_to_prev_next_interval, touching_windows (+core), "
+                        "split_touching_windows on random small arrays with many coinciding endpoints (lengths <= 8, windows -2..3), 10% malformed",
+                   branch=lambda c, o: f"{c['fn']}:{o.split(' ')[0]}")
+    cases, fcases, dcases = [], [], []
+    for _ in range(n):
+        rows = gen.gen_rows(rng, rng.randint(0, 8), mode=rng.choice(["disjoint", "touching", "mixed", "long"]))
+        ends = [r[1] for r in rows] or [0]
+        nb = rng.choice([0, T0, T0 + rng.choice(ends), T0 + rng.choice(ends) + 2, T0 - 3])
+        c = dict(rows=shift_rows(rows), safe=rng.randint(0, 5), nb=nb, enc=rng.choice(ENCS))
+        cases.append(c)
+        fcases.append(dict(c, left=rng.randint(0, 1), tol=0))
+        dcases.append(dict(rows=c["rows"], enc=c["enc"]))
+    ctx.correspond("epoch/find_break", cases, impl_findbreak, op_findbreak, oracle_findbreak, nontrivial=lambda c, o: len(c["rows"]) >= 2,
+                   rule="rows and not_before shifted by T0, safe_break 0..5", branch=lambda c, o: o if o.startswith("err") else "ok")
+    ctx.correspond("epoch/from_break", fcases, impl_frombreak, op_frombreak, oracle_frombreak, nontrivial=lambda c, o: o.startswith("ok"),
+                   rule="the same through from_break")
+    ctx.correspond("epoch/diff", dcases, impl_diff, lambda c: f"c17.diff {sl.show_rows(c['rows'])}", oracle_diff,
+                   nontrivial=lambda c, o: len(c["rows"]) >= 2, rule="rows shifted by T0")
+    cases = [dict(a1=T0 + rng.randint(-6, 6), na=rng.randint(-1, 7), b1=T0 + rng.randint(-6, 6), nb=rng.randint(-1, 7)) for _ in range(n)]
+    ctx.correspond("epoch/overlap_indices", cases, impl_overlap, op_overlap, oracle_overlap, nontrivial=lambda c, o: o.startswith("ok") and o != "ok 0,0,0,0",
+                   rule="a1, b1 = T0 + (-6..6), lengths -1..7")
+    cases = []
+    for _ in range(n):
+        k = rng.randint(0, 20)
+        cases.append(dict(rows=[(T0 + rng.randint(0, 4), rng.randint(rng.choice([0, -2]), 3), i) for i in range(k)], ch=int(rng.random() < 0.7)))
+    ctx.correspond("epoch/sort_by_time", cases, impl_sort, op_sort, oracle_sort, nontrivial=lambda c, o: len(c["rows"]) >= 2,
+                   rule="times T0 + 0..4 (small span: composite-key path), 0..20 rows with many ties", branch=lambda c, o: f"ch={c['ch']}")
+
+
+def sort_slow_path_component(ctx):
+    """time span above (2^63-10)/(channels+1): sort_by_time falls back to np.sort(order=...)"""
+    rng = ctx.rng
+    big = 5 * 10**18
+    cases = []
+    opts = [(t, ch) for t in (0, 1, big, big + 1) for ch in (0, 1)]
+    for n in range(2, 5):
+        for combo in itertools.product(opts, repeat=n):
+            if max(c[0] for c in combo) - min(c[0] for c in combo) < big - 1:
+                continue
+            if n == 4 and hash(combo) % (1 if ctx.thorough else 4):
+                continue
+            ids = list(range(n))
+            if hash(combo) % 2:
+                ids.reverse()
+            cases.append(dict(rows=[(t, ch, i) for i, (t, ch) in zip(ids, combo)], ch=1))
+    for _ in range(ctx.pick(600, 4000)):
+        n = rng.randint(2, 14)
+        base = rng.choice([0, 4 * 10**18])
+        rows = [(base + rng.choice([0, 0, 1, 2, big, big + 1]), rng.randint(rng.choice([0, -2]), 2), i) for i in range(n)]
+        rng.shuffle(rows)
+        rows[0] = (base, rows[0][1], rows[0][2])
+        rows[-1] = (base + big, rows[-1][1], rows[-1][2])
+        cases.append(dict(rows=rows, ch=int(rng.random() < 0.7)))
+    cases = [c for c in cases if sort_slow_path(c)]  # a single channel value (M = 1) can never exceed the guard within int64
+    ctx.correspond("sort_by_time/slow-path", cases, impl_sort, op_sort, oracle_sort, nontrivial=lambda c, o: len(c["rows"]) >= 3,
+                   rule="time span 5e18 ns (> (2^63-10)/(channels+1), far from the float rounding band) with 1..3 channels or no channel field: "
+                        "all small arrays over times (0,1,5e18,5e18+1) x channels (0,1) with ids in input or reversed order, and random arrays with ties; "
+                        "model: lexicographic by (time, channel, remaining field)", branch=lambda c, o: f"ch={c['ch']}",
+                   in_hyp=lambda c, o: False)
 
 
 def tick(ctx, label):
@@ -847,6 +975,12 @@ def _run(ctx):
                       rule="every array of <= n positive-length things sorted by time and endtime x every time-sorted (overlapping allowed) containers array x window -2..3; "
                            "scopes (things n, grid, containers scope): " + ", ".join(f"({a},{b},{c})" for a, b, c in tscopes),
                       branch=lambda c, o: f"w={c['w']}")
+    stn, stg, stc = (3, 4, "sorted:pos:2:4") if not T else (3, 5, "sorted:pos:2:5")
+    for w in windows:
+        run_sweep(ctx, "split_touching_windows/exhaustive", things_cases("splittouch", sorted_things(stn, stg, ends=True), stc, w=w),
+                  pairs_per_case=len(scope(stc)["rows"]),
+                  rule=f"every array of <= {stn} positive-length things sorted by time and endtime on grid 0..{stg} x scope '{stc}' x window -2..3",
+                  branch=lambda c, o: f"w={c['w']}")
     zt, zg, zc = (2, 4, "sorted:zero:2:4") if not T else (3, 4, "sorted:zero:2:4")
     for w in windows:
         run_sweep(ctx, "touching_windows/zero-length+unsorted-ends", things_cases("touch", sorted_things(zt, zg, zero=True), zc, w=w),
@@ -864,11 +998,11 @@ def _run(ctx):
             t = malform(rng, t)
         elif kind == "bad-containers":
             c = malform(rng, c)
-        cases.append(dict(fn=rng.choice(["touch", "touch", "touch", "touchcore"]), t=t, c=c, w=rng.randint(-4, 6), et=rng.choice(ENCS), ec=rng.choice(ENCS), kind=kind))
+        cases.append(dict(fn=rng.choice(["touch", "touch", "splittouch", "touchcore"]), t=t, c=c, w=rng.randint(-4, 6), et=rng.choice(ENCS), ec=rng.choice(ENCS), kind=kind))
     ctx.correspond("touching_windows/random", cases, impl_pair, op_pair, oracle_pair,
                    nontrivial=lambda c, o: len(c["t"]) >= 2 and len(c["c"]) >= 1,
                    rule="random: 0..14 things (80% sorted by time and endtime, else by time only), 0..7 containers sorted by time (overlapping allowed), window -4..6; "
-                        "wrapper and jitted core; malformed stream must be ValueError",
+                        "wrapper, jitted core and split_touching_windows; malformed stream must be ValueError",
                    branch=lambda c, o: f"{c['fn']}:{c['kind']}:{o.split(' ')[0]}", in_hyp=lambda c, o: sanity_ok(c["t"], c["c"]) and ends_sorted(c["t"]))
 
     tick(ctx, "before section 5")
@@ -954,6 +1088,11 @@ def _run(ctx):
         cases.append(dict(rows=rows, ch=int(rng.random() < 0.8)))
     ctx.correspond("sort_by_time/random", cases, impl_sort, op_sort, oracle_sort, nontrivial=lambda c, o: len(c["rows"]) >= 2,
                    rule="random 0..16 rows, many ties in (time, channel), negative channels, large time offsets (span stays far below the float guard)")
+    sort_slow_path_component(ctx)
+
+    tick(ctx, "before section 8")
+    # ---------------------------------------------------------------- 8. epoch-scale timestamps
+    epoch_components(ctx)
 
 
 # ============================================================================================ search / replay
